@@ -150,6 +150,27 @@ def run(env):
                                 (g1[1], pf1, [ctR], "N=1 identity proof"), (g1[2], pf1, [ctR, ctR], "N=2 one-item proof"),
                                 (g1[0], pf1, [], "N=0 one-item proof")):
         rc.append({"ctx": "R", "op": "check_proof", "args": [pkR, gens, pfb, es, es, "x:"], "_len": 400, "tag": "ristretto-verifier " + tag})
+    # verifiers that derive their generators locally, several statements of DIFFERENT sizes in one process (large first, then
+    # small, then large again): each honest proof must be accepted, none may panic
+    for ctx in ("R", "B:2039", "M:%d" % P62):
+        loc = []
+        for n in (9, 3, 1, 12, 2):
+            if ctx == "R":
+                L_ = 2 ** 252 + 27742317777372353535851937790883648493
+                els = env.harness([{"ctx": "R", "op": "gpow", "args": [str(r.randrange(L_))]} for _ in range(2 * n)])
+                es_ = [[els[2 * i], els[2 * i + 1]] for i in range(n)]; pk_ = pkR
+            else:
+                P_, q_, g_ = pq(ctx); pk_ = str(pow(g_, 5, P_))
+                es_ = [[str(rnd_member(r, ctx)), str(rnd_member(r, ctx))] for _ in range(n)]
+            gens_ = env.harness([{"ctx": ctx, "op": "generators", "args": [str(n + 1), "x:6c6f63"], "tag": "local-generators"}])[0]
+            sh_ = env.harness([{"ctx": ctx, "op": "gen_shuffle", "args": [pk_, es_, script(r, 200 * n + 512)], "tag": "local-generators"}])[0]
+            pr_ = env.harness([{"ctx": ctx, "op": "gen_proof", "args": [pk_, gens_, es_, sh_[0], sh_[1], sh_[2], "x:", script(r, 100 * (4 * n + 4) + 512)], "tag": "local-generators"}])[0]
+            loc.append({"ctx": ctx, "op": "check_proof_localgens", "args": [pk_, "x:6c6f63", pr_[0], es_, sh_[0], "x:"], "tag": "verifier-local-generators N=%d" % n})
+        lo = env.harness(loc)
+        if lo != [True] * len(loc):
+            k_ = next(i for i, o in enumerate(lo) if o is not True)
+            env.violation("a verifier deriving its generators locally returns %s for the honest proof #%d (%s) after verifying statements of other sizes in the same process on %s"
+                          % (lo[k_], k_, loc[k_]["tag"], ctx), {"kind": "battery", "case": loc[: k_ + 1], "out": lo})
     for c, o in zip(rc, env.harness(rc)):
         if c["op"] == "check_proof" and o not in (True, False, "err"):
             env.violation("ristretto check_proof returns %s on a decodable hand-made proof (%s)" % (o, c["tag"]), {"kind": "battery", "case": c, "out": o})
